@@ -7,6 +7,7 @@ import (
 	"encoding/json"
 	"flag"
 	"fmt"
+	"hash/crc32"
 	"strings"
 
 	"github.com/nyaruka/goflow/flows"
@@ -91,7 +92,13 @@ func c18Loc(args []string) error {
 		src := fmt.Sprintf("%s#%d", *in, i)
 		// every 7th case: the message goes to all URNs of the contact and names a channel template that only the first
 		// URN's channel has a translation of (in eng-US)
-		allURNs := i%7 == 0
+		// (the variant is a function of the case, not of its position: a confirming run sees the case alone)
+		variant := crc32.ChecksumIEEE(data) % 7
+		allURNs := variant == 0
+		// two cases in seven: the session starts under an environment in which the contact's language has the opposite
+		// standing (allowed <-> not allowed), waits, and is resumed - the same object, never written out - with the
+		// environment of the case; what is sent after the wait follows the environment in force then
+		viaResume := variant == 1 || variant == 2
 		resetGenerators(1)
 		act := M{"uuid": actionUUID(1, 1, 1), "type": "send_msg", "text": "", "attachments": []string{}, "quick_replies": []string{}}
 		if lc.Native["text"] {
@@ -141,7 +148,15 @@ func c18Loc(args []string) error {
 			"cases":      []M{{"uuid": caseUUID(1, 1, 1), "type": "has_any_word", "arguments": []string{plant("arguments", "native")}, "category_uuid": catUUID(1, 1, 1)}},
 			"categories": []M{{"uuid": catUUID(1, 1, 1), "name": "Cat", "exit_uuid": exitUUID(1, 1, 1)}}}
 		node := M{"uuid": nodeUUID(1, 1), "actions": []M{act}, "router": router, "exits": exitsFor(1, 1, 0)}
-		flow := M{"uuid": flowUUID(1), "name": "Flow 1", "spec_version": "13.6.0", "language": lc.Base, "type": "messaging", "nodes": []M{node}, "localization": loc}
+		nodes := []M{node}
+		if viaResume {
+			wr := M{"type": "switch", "operand": "@input.text", "wait": M{"type": "msg"}, "default_category_uuid": catUUID(1, 2, 1), "cases": []M{},
+				"categories": []M{{"uuid": catUUID(1, 2, 1), "name": "All", "exit_uuid": exitUUID(1, 2, 1)}}}
+			// something localizable is evaluated before the wait too (whatever the engine remembers from it must not matter later)
+			warm := M{"uuid": actionUUID(1, 2, 1), "type": "send_msg", "text": "warm up", "attachments": []string{}, "quick_replies": []string{}}
+			nodes = []M{{"uuid": nodeUUID(1, 2), "actions": []M{warm}, "router": wr, "exits": []M{{"uuid": exitUUID(1, 2, 1), "destination_uuid": nodeUUID(1, 1)}}}, node}
+		}
+		flow := M{"uuid": flowUUID(1), "name": "Flow 1", "spec_version": "13.6.0", "language": lc.Base, "type": "messaging", "nodes": nodes, "localization": loc}
 		chanB := "57f1078f-88aa-46f4-a59a-948a5739c0bb"
 		sa, err := loadAssets(mustJSON(M{"flows": []M{flow}, "channels": []M{{"uuid": chanA, "name": "A", "address": "+17036975131", "schemes": []string{"tel"}, "roles": []string{"send", "receive"}, "country": "US"},
 			{"uuid": chanB, "name": "B", "address": "nyaruka", "schemes": []string{"twitterid"}, "roles": []string{"send", "receive"}}},
@@ -159,8 +174,23 @@ func c18Loc(args []string) error {
 		if lc.Cl != "" {
 			c["language"] = lc.Cl
 		}
+		startAllowed := lc.Allowed
+		if viaResume {
+			startAllowed = []string{}
+			has := false
+			for _, l := range lc.Allowed {
+				if l == lc.Cl {
+					has = true
+				} else {
+					startAllowed = append(startAllowed, l)
+				}
+			}
+			if !has && lc.Cl != "" {
+				startAllowed = append([]string{lc.Cl}, lc.Allowed...)
+			}
+		}
 		t := M{"type": "manual", "flow": M{"uuid": flowUUID(1), "name": "Flow 1"}, "contact": c, "triggered_on": "2018-07-06T12:00:00Z",
-			"environment": M{"allowed_languages": lc.Allowed, "date_format": "YYYY-MM-DD", "time_format": "tt:mm", "timezone": "UTC"}}
+			"environment": M{"allowed_languages": startAllowed, "date_format": "YYYY-MM-DD", "time_format": "tt:mm", "timezone": "UTC"}}
 		trig, err := readTrigger(sa, mustJSON(t))
 		if err != nil {
 			errs = append(errs, src+": "+err.Error())
@@ -170,6 +200,23 @@ func c18Loc(args []string) error {
 		if err != nil {
 			errs = append(errs, src+": "+err.Error())
 			return nil
+		}
+		if viaResume {
+			if s.Status() != flows.SessionStatusWaiting {
+				errs = append(errs, src+": session is not waiting before the resume")
+				return nil
+			}
+			res, err := readResume(sa, mustJSON(M{"type": "msg", "resumed_on": "2018-07-06T13:00:00Z",
+				"msg":         M{"uuid": "c8005ee3-4628-4d76-be66-906352000001", "urn": "tel:+12065551212", "text": "go on"},
+				"environment": M{"allowed_languages": lc.Allowed, "date_format": "YYYY-MM-DD", "time_format": "tt:mm", "timezone": "UTC"}}))
+			if err != nil {
+				errs = append(errs, src+": "+err.Error())
+				return nil
+			}
+			if sp, err = s.Resume(res); err != nil {
+				errs = append(errs, src+": "+err.Error())
+				return nil
+			}
 		}
 		n++
 		line := &LLine{Src: src, Cl: lc.Cl, Allowed: lc.Allowed, Base: lc.Base, Native: lc.Native, Tr: lc.Tr, Desc: string(data)}
